@@ -184,6 +184,14 @@ Definition in_range (o lo hi : Z) : bool := (o =? OffsetNewest) || (o =? OffsetO
 Definition claim_offset (cf : cfg) (pom lo hi : Z) : option Z :=
   let o := next_offset cf pom in
   if in_range o lo hi then Some o else if in_range (c_initial cf) lo hi then Some (c_initial cf) else None.
+(* newConsumerGroupClaim, with the outcome of its ConsumePartition attempts as inputs: a1 = false: the first attempt fails
+   with an error other than ErrOffsetOutOfRange (leader unknown, ListOffsets refused, connection lost ...): no fallback,
+   no claim.  Out of range: a second attempt at Consumer.Offsets.Initial, which a2 = false makes fail the same way. *)
+Definition claim_try (cf : cfg) (pom lo hi : Z) (a1 a2 : bool) : option Z :=
+  if a1 then
+    let o := next_offset cf pom in
+    if in_range o lo hi then Some o else if a2 && in_range (c_initial cf) lo hi then Some (c_initial cf) else None
+  else None.
 (* offset of the first record delivered *)
 Definition resolve (o lo hi : Z) : Z := if o =? OffsetNewest then hi else if o =? OffsetOldest then lo else o.
 
@@ -231,7 +239,7 @@ Inductive input :=
 | IBackoffClosed                  (* retryNewSession's select takes <-c.closed *)
 | IFetch (ok : bool)              (* answer to the OffsetFetch of ManagePartition *)
 | ISetup
-| IClaimGo (p : part) (created : bool)   (* claim goroutine p runs up to the call of ConsumeClaim *)
+| IClaimGo (p : part) (a1 a2 : bool)    (* claim goroutine p runs up to the call of ConsumeClaim; a1 a2: see claim_try *)
 | IDeliver (p : part)
 | IClaimReturn (p : part)
 | IHeartbeat (v : hv)
@@ -339,7 +347,7 @@ Definition step (cf : cfg) (w : world) (i : input) : world * list event :=
       else (set_phase (set_res (set_ctx w) RSetupErr) PReleasing, [EvSetup; EvEnd CauseSetupErr])   (* release(true) *)
     | _ => (w, [])
     end
-  | IClaimGo p created =>
+  | IClaimGo p a1 a2 =>
     if claims_live w then
       match claim_find (s_claims w) p with
       | Some c =>
@@ -348,7 +356,7 @@ Definition step (cf : cfg) (w : world) (i : input) : world * list event :=
           if ending w then (claim_exit w c, [EvClaimSkip p; EvEnd CauseClaim])
           else
             let '(lo, hi) := log_get (w_log w) p in
-            match (if created then claim_offset cf (cl_pom c) lo hi else None) with
+            match claim_try cf (cl_pom c) lo hi a1 a2 with
             | Some o => (set_claims w (claim_put (s_claims w) (started_at c (resolve o lo hi))), [EvClaimStart p o])
             | None => (claim_exit w c, [EvClaimFail p; EvEnd CauseClaim])
             end
